@@ -31,6 +31,8 @@ type hOut struct {
 	OK    bool   // reg: accepted
 	Owner string // lookup: identity that answered ("" = refused)
 	Unk   bool   // lookup: transport anomaly, or answer explained separately (stale owner)
+	// Foreign: refused with a 404 that is not frps' not-found page (another listener of a shared port answered)
+	Foreign string
 }
 
 func historyModel(kind string, trs []triple) porcupine.Model {
@@ -281,6 +283,13 @@ func historyCase(c *h.Case) {
 		a := ua.do(r)
 		ret := h.Now()
 		out := hOut{Owner: a.Ident}
+		if a.Foreign404 {
+			out.Foreign = claimedKey(a)
+			if !a.ControlPort {
+				out.Foreign = "matching-route-answered-by-foreign-not-found-" + kind
+			}
+			run.Count("hist_answers_by_another_listener_of_the_port", 1)
+		}
 		if a.Dropped {
 			// closed without alert: the connection was routed to a listener that closed before the hand-over completed
 			out.Unk = true
@@ -356,6 +365,28 @@ func historyCase(c *h.Case) {
 	res, _ := porcupine.CheckOperationsVerbose(historyModel(kind, trs), hist, 60*time.Second)
 	switch res {
 	case porcupine.Illegal:
+		// first question: is the history legal once refusals that did not come from the vhost (Go's plain 404 of the
+		// control port's websocket server) are discounted? Then requests were claimed by the wrong listener.
+		{
+			w := append([]porcupine.Operation(nil), hist...)
+			n, key := 0, ""
+			for k, op := range w {
+				if out := op.Output.(hOut); op.Input.(hIn).Op == "lookup" && out.Foreign != "" && !out.Unk {
+					if key == "" || !strings.Contains(out.Foreign, "websocket-path") {
+						key = out.Foreign
+					}
+					out.Unk = true
+					w[k].Output = out
+					n++
+				}
+			}
+			if n > 0 {
+				if r, _ := porcupine.CheckOperationsVerbose(historyModel(kind, trs), w, 60*time.Second); r == porcupine.Ok {
+					c.Violation(key, "history of %d operations over triples %v (%s) is not linearizable; it is once %d refusals are discounted that were answered by another listener of the port (plain \"404 page not found\") and not by the vhost", len(hist), trs, kind, n)
+					break
+				}
+			}
+		}
 		// second question: is the history legal once answers of proxies whose close was acknowledged before the
 		// answer arrived (request and close overlapped) are discounted? Then the witness is a stale former owner.
 		weak := append([]porcupine.Operation(nil), hist...)
